@@ -190,6 +190,15 @@ class Model:
     def emit(self, s):
         if not s:
             return
+        if s.startswith(('\\begin{', '\\end{')) and not s.startswith(('\\end{verbatim}', '\\end{lstlisting}')) \
+                and not self.flags.get('no_begin_blank'):
+            # LaTeX (and the filter) accept white space between \begin / \end and the name:
+            # a deterministic share of the environment delimiters is rendered that way (seeded change C02-H);
+            # the end of verbatim material must be literal, as in LaTeX
+            k = (self.n * 31 + self.wcount) % 18
+            if k < 2:
+                s = s.replace('{', ' {' if k == 0 else '\n  {', 1)
+                self.features.add('blank-before-environment-name')
         tail = self.tail
         # keep tokenisation as rendered: never let two pieces fuse into another token
         if ((s[0] in ASCII_LETTERS or s[0] == '@') and CW_END.search(tail)) or \
